@@ -60,6 +60,8 @@ pub struct Config {
 	pub invoices: bool,
 	pub late_lock: bool,
 	pub self_send: bool,
+	/// C12: a counterparty sends an invoice that reuses the slate id of one of the victim's pending sends
+	pub hostile_invoice: bool,
 }
 
 pub struct Viol {
@@ -183,6 +185,7 @@ impl<'a> History<'a> {
 				)
 			})
 			.collect();
+		self.check_offset_leak(wi, what, slate, None);
 		// two different participant entries of one slate must not share nonce or excess
 		for i in 0..own.len() {
 			for k in (i + 1)..own.len() {
@@ -210,6 +213,47 @@ impl<'a> History<'a> {
 			}
 			self.excesses.insert((wi, x), sid);
 			self.stat("nonces-recorded");
+		}
+	}
+
+	/// M-secrets, public-data part: what a slate reveals must not let anyone compute a participant's secret
+	/// blinding key. The offset (or the change of the offset made by this wallet, when the incoming slate's
+	/// offset is known to the counterparty) equal to +/- that key does: (+/-)x*G == public_blind_excess.
+	fn check_offset_leak(&mut self, wi: usize, what: &str, slate: &Slate, incoming_offset: Option<&grin_keychain::BlindingFactor>) {
+		let secp = grin_util::static_secp_instance();
+		let secp = secp.lock();
+		let mut cands: Vec<(&str, grin_util::secp::key::SecretKey)> = vec![];
+		if let Ok(sk) = slate.offset.secret_key(&secp) {
+			cands.push(("offset", sk));
+		}
+		if let Some(inc) = incoming_offset {
+			if let (Ok(o2), Ok(o1)) = (slate.offset.secret_key(&secp), inc.secret_key(&secp)) {
+				if let Ok(d) = secp.blind_sum(vec![o2], vec![o1]) {
+					cands.push(("offset minus the incoming slate's offset", d));
+				}
+			}
+		}
+		let mut hits: Vec<String> = vec![];
+		for (name, sk) in cands.iter() {
+			let pos = grin_util::secp::key::PublicKey::from_secret_key(&secp, sk).ok();
+			let mut n = sk.clone();
+			let neg = if n.neg_assign(&secp).is_ok() { grin_util::secp::key::PublicKey::from_secret_key(&secp, &n).ok() } else { None };
+			for p in slate.participant_data.iter() {
+				if Some(p.public_blind_excess) == pos {
+					hits.push(name.to_string());
+				} else if Some(p.public_blind_excess) == neg {
+					hits.push(format!("negated {}", name));
+				}
+			}
+		}
+		drop(secp);
+		self.stat("secrets:offsets-checked-against-public-excesses");
+		hits.sort();
+		hits.dedup();
+		for h in hits {
+			let sig = format!("C12|secret-in-clear|blinding-key-equals-{}|message:{}", h.replace(' ', "-").replace("'", ""), what);
+			let w = format!("wallet {} emitted slate {} ({}) whose {} is the secret blinding key of one of its participant entries: (+/-)x*G == public_blind_excess", wi, slate.id, what, h);
+			self.viols.push(Viol { prop: "C12", signature: sig, what: w, step: self.step });
 		}
 	}
 
@@ -538,6 +582,8 @@ impl<'a> History<'a> {
 		match &r {
 			Ok(s2) => {
 				self.emit(f.payer, "I2", s2);
+				let inc = f.s1.as_ref().map(|s| s.offset.clone());
+				self.check_offset_leak(f.payer, "I2", s2, inc.as_ref());
 				if !repeat {
 					self.flights[fi].s2 = Some(s2.clone());
 				}
@@ -663,6 +709,48 @@ impl<'a> History<'a> {
 			Err(_) => self.stat("op:post-refused"),
 		}
 		self.ev("post_tx", json!({"slate": f.id.to_string()}), &format!("{:?}", r.as_ref().map_err(err_kind)));
+	}
+
+	/// C12: the peer sends an invoice whose slate id is that of one of the victim's own pending sends
+	/// (it knows the id from the S1 slate it was given). Paying it must not reveal the payer's key nor
+	/// destroy the pending send's private data.
+	pub fn op_hostile_invoice(&mut self, rng: &mut Rng) {
+		let cands: Vec<usize> = (0..self.flights.len()).filter(|i| { let f = &self.flights[*i]; !f.dead && f.kind != Kind::Invoice && !f.finalized && !f.cancelled_payer && f.payer != f.payee }).collect();
+		if cands.is_empty() {
+			return;
+		}
+		let fi = *rng.pick(&cands);
+		let f = self.flights[fi].clone();
+		let (victim, peer) = (f.payer, f.payee);
+		let inv = match self.w.wallets[peer].issue_invoice(IssueInvoiceTxArgs { amount: 50_000_000 + rng.below(500_000_000), ..Default::default() }) {
+			Ok(mut s) => {
+				let orig = s.id;
+				s.id = f.id;
+				let _ = self.w.wallets[peer].cancel(None, Some(orig));
+				s
+			}
+			Err(_) => return,
+		};
+		self.set_acct(victim, &f.payer_acct);
+		let ctx_before = self.w.wallets[victim].context(&f.id).ok().map(|c| (c.sec_key.0, c.sec_nonce.0, c.input_ids.len(), c.output_ids.len()));
+		let args = InitTxArgs { amount: 0, minimum_confirmations: 1, num_change_outputs: 1, selection_strategy_is_use_all: false, ..Default::default() };
+		let r = self.w.wallets[victim].process_invoice(&inv, args);
+		match &r {
+			Ok(s2) => {
+				self.emitted.push((victim, "I2(hostile-id)".to_string(), serde_json::to_vec(s2).unwrap_or_default()));
+				self.check_offset_leak(victim, "I2(invoice-reusing-the-id-of-a-pending-send)", s2, Some(&inv.offset));
+				let ctx_after = self.w.wallets[victim].context(&f.id).ok().map(|c| (c.sec_key.0, c.sec_nonce.0, c.input_ids.len(), c.output_ids.len()));
+				if ctx_before.is_some() && ctx_after != ctx_before {
+					self.stat("hostile-invoice:accepted-and-replaced-the-pending-sends-context");
+				}
+				// the pending send's private data is gone: nothing left to interleave for that flight
+				self.flights[fi].dead = true;
+				let _ = self.w.wallets[victim].cancel(None, Some(f.id));
+				self.stat("op:hostile-invoice:accepted");
+			}
+			Err(e) => self.stat(&format!("op:hostile-invoice:refused:{}", err_kind(e))),
+		}
+		self.ev("process_invoice_tx(hostile: reuses pending send id)", json!({"slate": f.id.to_string(), "wallet": victim}), &format!("{:?}", r.as_ref().map(|_| ()).map_err(err_kind)));
 	}
 
 	pub fn op_cancel(&mut self, rng: &mut Rng) {
@@ -1075,6 +1163,8 @@ impl<'a> History<'a> {
 				self.op_advance(rng);
 			} else if r < 95 {
 				self.op_cancel(rng);
+			} else if r >= 95 && self.cfg.hostile_invoice && rng.bool() {
+				self.op_hostile_invoice(rng);
 			} else if r < 97 && self.cfg.restarts {
 				self.op_restart(rng);
 			} else {
